@@ -30,7 +30,7 @@ def gen_net(rng, tier):
     from .. import sched
     if rng.random() < 0.35:
         from . import c08
-        pipe = c08.gen(rng, tier)
+        pipe = c08.gen(rng, tier, plain=True)
         ts = sorted(set([x[0] for s_ in pipe['sources'] if s_.get('kind') == 'inj' for x in s_['workload']] + [1.0, 2.0]))
         plan = []
         for _ in range(rng.choice([1, 2, 3, 5])):
